@@ -264,6 +264,31 @@ def gen_configs(rng, count, tier):
     return cfgs
 
 
+def tol_tight(cfg):
+    return max(cfg["tol"] * 1e-3, 1e-12)
+
+
+def track(cur, op):
+    """the configuration in force after `op` (settol / setmaxiter change what every later op reads)"""
+    t = op.split()
+    if t and t[0] == "settol":
+        return dict(cur, tol=bits2f(t[1]))
+    if t and t[0] == "setmaxiter":
+        return dict(cur, maxit=int(t[1]))
+    return cur
+
+
+def oracle_script(cfg, script, out):
+    """spec oracle over a whole script with the tolerance in force at the time of each op"""
+    fails = []
+    cur = cfg
+    for i, (op, o) in enumerate(zip(script[1:], out)):
+        for site, cls, what in oracle_line(cur, op, o):
+            fails.append((i, site, cls, what))
+        cur = track(cur, op)
+    return fails
+
+
 def rand_point(r, cfg, scale=1.0):
     return [r.uniform(cfg["lo"], cfg["hi"]) * scale for _ in range(cfg["n"])]
 
@@ -382,6 +407,16 @@ def main_script(cfg, r, pts, tier):
     for j, (a, b) in enumerate(pairs):
         lines.append("cm1 %s %s" % (st(a), st(b)))
         lines.append("cm2 %d %s %s" % (0 if j % 4 == 3 else 1, st(a), st(b)))
+    # the tolerance and the iteration limit are changed *mid-script*, after charts exist and without clearing the atlas
+    # (they are read from the constraint at call time by project() and by every chart's psi()): the ops are shuffled so
+    # that every kind runs under the original, a tightened and a loosened tolerance.
+    fixed, core = lines[:3], lines[3:]
+    r.shuffle(core)
+    a3, a2, b3 = len(core) // 3, len(core) // 2, 2 * len(core) // 3
+    tight, loose = tol_tight(cfg), min(cfg["tol"] * 100.0, 1e-2)
+    core = (core[:a3] + ["settol " + f2bits(tight)] + core[a3:a2] + ["setmaxiter %d" % (25 if cfg["maxit"] >= 50 else 50)] +
+            core[a2:b3] + ["settol " + f2bits(loose)] + core[b3:])
+    lines = fixed + core
     if cfg.get("plan"):
         free = [p for p in pts if valid_py(cfg, p)]
         if len(free) >= 2:
@@ -439,6 +474,17 @@ def oracle_line(cfg, op, out):
     evs = parse_events(tail, n, m) if tail else []
     space = cfg["space"]
     lamdel = cfg["lam"] * cfg["delta"]
+    # on-manifold clause at call granularity, with the tolerance in force now: a projection that reports success
+    # (chart psi or Constraint::project) left a state within the *current* getTolerance()
+    for e in evs:
+        if e[0] == "PSI" and e[3] == "1" and not satisfied(cfg, fl(e[4])):
+            fails.append(("psi", "success-above-current-tolerance", "AtlasChart::psi reported success on a state with residual %.3g > current tolerance %.3g"
+                          % (math.sqrt(resid_sq(cfg["con"], fl(e[4]))), cfg["tol"])))
+            break
+        if e[0] == "P" and e[2] == "1" and not satisfied(cfg, fl(e[3])):
+            fails.append(("project", "success-above-current-tolerance", "Constraint::project reported success on a state with residual %.3g > current tolerance %.3g"
+                          % (math.sqrt(resid_sq(cfg["con"], fl(e[3]))), cfg["tol"])))
+            break
     if t[0] == "sample":
         s = fl(head[1:1 + n])
         if not satisfied(cfg, s):
@@ -541,7 +587,7 @@ def driver_lines(cfg, script, out):
         # byte budget of one driver script (the compiled model parses ~0.7 MB/s): single-projection replays beyond 2 MB and
         # any replay beyond 6 MB are skipped and counted (long wandering geodesics at delta=0.01, lambda=10 are ~0.5 MB each)
         lim = 2e6 if tag[1] == "project" else 6e6
-        if size[0] + len(line) > lim and tag[1] not in ("gi", "cm1", "sample", "sat"):
+        if size[0] + len(line) > lim and tag[1] not in ("gi", "cm1", "sample", "sat", "set"):
             skipped[0] += 1
             return
         size[0] += len(line)
@@ -552,6 +598,9 @@ def driver_lines(cfg, script, out):
     for li, (op, o) in enumerate(zip(script[1:], out)):
         t = op.split()
         head, tail = split_line(o)
+        if t and t[0] in ("settol", "setmaxiter"):
+            add(op, "ok", (li, "set"))
+            continue
         if not head or head[0] in ("bad-op", "exception", "ok", "params"):
             continue
         evs = parse_events(tail, n, m) if tail else []
@@ -854,7 +903,9 @@ def run_config(ck, hbin, cfg, tier, script=None):
     stats = {}
     pts_for_chart = None
     if script is None:
-        p1 = pass1_script(cfg, r.fork("p1"), 40)
+        # known manifold points must stay on the manifold under every tolerance the script will set
+        p1cfg = dict(cfg, tol=tol_tight(cfg), maxit=max(cfg["maxit"], 50))
+        p1 = pass1_script(p1cfg, r.fork("p1"), 40)
         o1, rc1, err1 = ck.run_bin(hbin, p1, timeout=HARD_TIMEOUT[tier])
         if rc1 == "timeout":
             return dict(script=p1, out=[], fails=[], diffs=[], stats=stats, p1=None, chart=None,
@@ -867,11 +918,11 @@ def run_config(ck, hbin, cfg, tier, script=None):
             head, _ = split_line(o)
             if head[0] == "ret=1":
                 x = fl(head[2:2 + cfg["n"]])
-                if satisfied(cfg, x) and all(cfg["lo"] <= v <= cfg["hi"] for v in x):
+                if satisfied(p1cfg, x) and all(cfg["lo"] <= v <= cfg["hi"] for v in x):
                     pts.append(x)
         stats["manifold_points"] = len(pts)
         pts_for_chart = pts
-        p1pair = (p1, o1)
+        p1pair = (p1, o1, p1cfg)
         script = main_script(cfg, r.fork("main"), pts, tier)
         out = None
         if len(script) < 2:
@@ -904,23 +955,22 @@ def run_config(ck, hbin, cfg, tier, script=None):
     for op, o in zip(script[1:], out):
         if op == "params" and o.startswith("params ") and "eps=" in o:
             cfg["aparams"] = " ".join(x for x in o.split()[1:] if not x.startswith("rhos="))
-    fails = []
-    for i, (op, o) in enumerate(zip(script[1:], out)):
-        for site, cls, what in oracle_line(cfg, op, o):
-            fails.append((i, site, cls, what))
+    fails = oracle_script(cfg, script, out)
+    if p1pair is not None and p1pair[0] is not script:
+        fails += [(i, "p1:" + a, b, w) for (i, a, b, w) in oracle_script(p1pair[2], p1pair[0], p1pair[1])][:2]
     # correspondence
     diffs = []
-    todo = [(script, out)]
+    todo = [(script, out, cfg)]
     if p1pair is not None and p1pair[0] is not script:
         todo.append(p1pair)
     nrep = 0
-    for sc, ou in todo:
-        L, E, T = driver_lines(cfg, sc, ou)
+    for sc, ou, dcfg in todo:
+        L, E, T = driver_lines(dcfg, sc, ou)
         if T and T[-1][0] == -1:
             stats["replay-skipped-over-byte-budget"] = stats.get("replay-skipped-over-byte-budget", 0) + int(T.pop()[1].split(":")[1])
         if not L:
             continue
-        mo, rc2, err2 = ck.run_bin(ck.driver(DRIVER), [header(cfg, driver=True)] + L, timeout=900)
+        mo, rc2, err2 = ck.run_bin(ck.driver(DRIVER), [header(dict(dcfg, aparams=cfg.get("aparams", "")), driver=True)] + L, timeout=900)
         if rc2 != 0 or mo is None or len(mo) != len(L):
             raise RuntimeError("model driver failed (rc=%s, %s of %d lines): %s" % (rc2, len(mo or []), len(L), (err2 or "")[-800:]))
         for line, exp, tag, got in zip(L, E, T, mo):
@@ -1035,7 +1085,10 @@ def judge(ck, hbin, cfg, res, tier):
             continue
         script = res["chart"][0] if (site == "chart" and res.get("chart")) else res["script"]
         small = script
-        if site != "crash" and len(script) > 3:
+        if site.startswith("p1:") and res.get("p1"):
+            script = small = res["p1"][0]
+            cfg = res["p1"][2] if len(res["p1"]) > 2 else cfg
+        elif site != "crash" and len(script) > 3:
             keep = [l for l in script[1:3] if l.startswith(("anchor", "params", "clog"))]
             rest = script[1 + len(keep):]
 
@@ -1046,7 +1099,7 @@ def judge(ck, hbin, cfg, res, tier):
                     return False
                 if site == "chart":
                     return any((a, b) == key for (_i, a, b, _w) in chart_oracle(cfg, o))
-                return any((a, b) == key for op, ol in zip(s[1:], o) for (a, b, _w) in oracle_line(cfg, op, ol))
+                return any((a, b) == key for (_i, a, b, _w) in oracle_script(cfg, s, o))
             small = [script[0]] + keep + core.ddmin(rest, still, max_tests=60)
         o, rc, err = ck.run_bin(hbin, small, timeout=300)
         if ck.report(record, script={"cfg": cfg, "lines": small}, expected="spec oracle: " + what, observed=(o or [])[-3:],
@@ -1062,6 +1115,8 @@ def judge(ck, hbin, cfg, res, tier):
         record = {"engine": "constrained", "space": cfg["space"], "site": "corr", "class": tag, "con": cfg["con"],
                   "what": "model/implementation disagreement"}
         # the spec oracle passed on this op (or it would be among the fails): a correspondence break without a failing input
+        if not ischart and not inmain and res.get("p1") and len(res["p1"]) > 2:
+            cfg = res["p1"][2]
         rep_lines = sc[:li + 2] if ischart else ([sc[0]] + [l for l in sc[1:3] if l.startswith(("anchor", "params")) and l is not sc[1 + li]] + [sc[1 + li]])
         ck.report(record, script={"cfg": cfg, "lines": rep_lines},
                   expected=exp, observed=got, found_input=False, engine="constrained",
